@@ -532,12 +532,51 @@ def load_recordings():
     return out
 
 
+def _arg_py(a):
+    if a[0] == "str":
+        return repr(a[1])
+    if a[0] == "col":
+        return f"F.col({a[1]!r})"
+    return f"F.col({a[1]!r}).alias({a[2]!r})"
+
+
+def op_py(op) -> str:
+    k = op[0]
+    if k == "select":
+        return "select(" + ", ".join(_arg_py(a) for a in op[1]) + ")"
+    if k == "withColumn":
+        return f"withColumn({op[1]!r}, F.col({op[2]!r}))"
+    if k == "withColumnRenamed":
+        return f"withColumnRenamed({op[1]!r}, {op[2]!r})"
+    if k == "toDF":
+        return "toDF(" + ", ".join(repr(x) for x in op[1]) + ")"
+    if k == "drop":
+        return "drop(" + ", ".join(repr(x) for x in op[1]) + ")"
+    if k == "groupAgg":
+        return ("groupBy(" + ", ".join(_arg_py(a) for a in op[1]) + ").agg("
+                + ", ".join(f"F.count('*').alias({a!r})" for a in op[2]) + ")")
+    if k == "agg":
+        return "agg(" + ", ".join(f"F.count('*').alias({a!r})" for a in op[1]) + ")"
+    if k == "join":
+        return f"join(createDataFrame([...], {list(op[1])!r}), on={list(op[2])!r}, how='inner')"
+    if k == "fillna":
+        return "fillna(0)" if op[1] is None else f"fillna(0, subset={list(op[1])!r})"
+    if k == "dropna":
+        return "dropna()"
+    if k == "dropDuplicates":
+        return f"dropDuplicates({list(op[1])!r})"
+    if k == "where":
+        return f"where(F.col({op[1]!r}) == 1)"
+    if k == "orderBy":
+        return "orderBy(" + ", ".join(repr(x) for x in op[1]) + ")"
+    if k == "limit":
+        return "limit(5)"
+    return "distinct()"
+
+
 def prog_str(prog, upto=None):
     ops = prog["ops"] if upto is None else prog["ops"][:upto]
-    s = f"createDataFrame([...], {prog['names']!r})"
-    for op in ops:
-        s += "." + op[0] + repr(tuple(op[1:]))
-    return s
+    return f"createDataFrame([...], {list(prog['names'])!r})" + "".join("." + op_py(op) for op in ops)
 
 
 def run(ctx: core.Ctx):
@@ -592,6 +631,7 @@ def run(ctx: core.Ctx):
     hist_op, hist_cat, hist_len, hist_tag = {}, {}, {}, {}
     n_eval = n_nontriv = n_td = n_tc = n_model_dev = 0
     model_fail, thm_fail = [], []
+    sig_count: dict[str, int] = {}
     for (tag, p), o, r in zip(progs, obs, res):
         hist_tag[tag] = hist_tag.get(tag, 0) + 1
         hist_len[len(p["ops"])] = hist_len.get(len(p["ops"]), 0) + 1
@@ -614,7 +654,7 @@ def run(ctx: core.Ctx):
             if k > 0 and mixed and (changed or "error" in ob):
                 n_nontriv += 1
             desc = {"program": prog_str(p, k), "names": p["names"], "ops": [list(x) for x in p["ops"][:k]], "step": k,
-                    "implementation": ob, "flags": st, "coq_case": case_coq({"names": p["names"], "ops": p["ops"][:k]}, o[:k + 1])}
+                    "implementation": ob, "flags": st}
             model_agrees = (st["impl_ok"] == st["model_ok"]) and (not st["impl_ok"] or all(st["m_" + v] for v in VIEWS + ["receiver"]))
             kind = None
             if not st["spec_ok"]:
@@ -633,7 +673,12 @@ def run(ctx: core.Ctx):
                             f"{v}={ob.get(v)}" for v in VIEWS if not st["s_" + v]),
                         "receiver": f"changed the receiver's columns from {ob.get('receiver_before')} to {ob.get('receiver_after')}"}[kind]
                 desc["spark_names"] = _py_names(p, k)
-                ctx.deviation(sig, f"{prog_str(p, k)} {what}", shrink(session, F, p, k, sig, desc))
+                sig_count[sig] = sig_count.get(sig, 0) + 1
+                if sig_count[sig] == 1:     # the first of its shape carries the Coq case and is shrunk
+                    desc["coq_case"] = case_coq({"names": p["names"], "ops": p["ops"][:k]}, o[:k + 1])
+                    desc = shrink(session, F, p, k, sig, desc)
+                if sig_count[sig] <= 3:
+                    ctx.deviation(sig, f"{prog_str(p, k)} {what}", desc)
                 if not model_agrees:
                     n_model_dev += 1
             if not kind and st["spec_ok"] and not model_agrees:
@@ -688,7 +733,7 @@ def run(ctx: core.Ctx):
                 "non-ASCII spelling and the step changed the reported names or raised",
         "histogram_operation": hist_op, "histogram_name_category": hist_cat, "histogram_program_length": hist_len,
         "histogram_source": hist_tag, "in_domain_names_theorem": n_td, "in_domain_views_theorem": n_tc,
-        "model_disagrees_on_a_deviating_step": n_model_dev,
+        "model_disagrees_on_a_deviating_step": n_model_dev, "deviating_steps_by_signature": sig_count,
         "pyspark_recorded_steps_checked": n_rs, "pyspark_recorded_steps_disagree": n_rbad,
     })
     ctx.assumptions += [
